@@ -251,13 +251,15 @@ def normal_mesh(mr):
         p, t = U.tet_cubes(1, 6)
     p = np.array(p, dtype=float) * 8
     p += rng.integers(-2, 3, size=p.shape)                 # every vertex displaced: cells stay convex (|d| <= 2 of 8)
+    if mr.get('order2'):
+        p = p / 8.0        # unit-size cells: the Newton inversion of curved cells uses an absolute tolerance
     m = U.make(kind, p, t)
     if mr.get('order2'):
         cls = {'tri': skfem.MeshTri2, 'quad': skfem.MeshQuad2}[kind]
         m2 = cls.from_mesh(m)
         d = m2.doflocs.copy()
         nv = m.p.shape[1]
-        d[:, nv:] += rng.integers(-2, 3, size=d[:, nv:].shape) / 4.0
+        d[:, nv:] += rng.integers(-2, 3, size=d[:, nv:].shape) / 32.0
         m = replace(m2, doflocs=d)
     return m
 
@@ -279,8 +281,7 @@ def exec_normal(rec):
         n = np.asarray(bs.default_parameters()['n'])           # (dim, nfacets, nq)
         n0 = np.asarray(b0.default_parameters()['n'])
         dim = mesh.dim()
-        nv = mesh.p.shape[1] if not rec['mesh'].get('order2') else None
-        P = np.asarray(mesh.p)[:, :] if nv else np.asarray(mesh.doflocs)
+        P = np.asarray(mesh.p)
         tv = np.asarray(mesh.t)
         nvc = {'quad': 4, 'tri': 3, 'hex': 8, 'tet': 4}[kind]
         planar = int(rec['planar'])
